@@ -351,7 +351,7 @@ impl FixedMethod {
                         B_OI_KAR => self.buffer.push(B_OI),
                         B_O_KAR => self.buffer.push(B_O),
                         B_OU_KAR => self.buffer.push(B_OU),
-                        _ => (),
+                        _ => self.buffer.push(character),
                     }
                 } else if config.get_fixed_automatic_chandra() && rmc == B_CHANDRA {
                     // Automatic Fix of Chandra Position
@@ -401,7 +401,7 @@ impl FixedMethod {
                             self.buffer.pop();
                             self.buffer.push(B_OU);
                         }
-                        _ => (),
+                        _ => self.buffer.push(character),
                     }
                 } else if config.get_fixed_traditional_kar() && rmc.is_pure_consonant() {
                     // Traditional Kar Joining
